@@ -36,6 +36,7 @@ def spec_regions(cg: CG.ClassCalls):
 def check(ctx):
     ctx.rule("R-C16.1", "no lexer regular expression (master alternation, #line / #pragma triggers, directive sub-patterns) has exponential degree of ambiguity")
     ctx.rule("R-C16.2", "each token is lexed once: _TokenStream.reset only moves the index, _fill only appends, the lexer is re-initialised only by parse()")
+    ctx.rule("R-C16.4", "per-token work is bounded by the token: the lexer never copies the rest (or the consumed part) of the whole input - no open-ended slice of the input text")
     ctx.rule("R-C16.3", "no speculative mark/reset region can re-enter itself through the productions it calls")
     lx = S.module("c_lexer")
     px = S.module("c_parser")
@@ -70,6 +71,30 @@ def check(ctx):
             ctx.violation("R-C16.1", f"eda:{nm}", f"pattern {nm} is exponentially ambiguous: {w}", file=lx.rel, function=nm)
     ctx.require_instances("R-C16.1", 3)
 
+    # ---- R-C16.4 ---------------------------------------------------------------
+    from .c09 import _single_def
+    n4 = 0
+    for mname, mfn in lx.methods("CLexer").items():
+        if mname in ("input", "__init__", "_init_state"):
+            continue
+
+        def whole_text(e):
+            if isinstance(e, ast.Attribute) and e.attr == "_lexdata":
+                return True
+            if isinstance(e, ast.Name):
+                d = _single_def(mfn, e.id)
+                return isinstance(d, ast.Attribute) and d.attr == "_lexdata"
+            return False
+        for n in ast.walk(mfn):
+            if isinstance(n, ast.Subscript) and whole_text(n.value):
+                n4 += 1
+                open_ended = isinstance(n.slice, ast.Slice) and (n.slice.lower is None or n.slice.upper is None)
+                ctx.oblige("R-C16.4", f"{mname}: {S.unparse(n)[:50]}", not open_ended, nontrivial=isinstance(n.slice, ast.Slice))
+                if open_ended:
+                    ctx.violation("R-C16.4", f"suffix-copy:{mname}:{S.unparse(n)[:40]}", f"CLexer.{mname} evaluates `{S.unparse(n)[:60]}`: an open-ended slice copies the rest (or everything before the cursor) of the whole input each time it runs - "
+                                  "per token that is quadratic work in the length of the input", file=lx.rel, function=f"CLexer.{mname}", line=n.lineno, construct=S.unparse(n)[:100])
+    if n4 < 6:
+        raise AnalysisError(f"only {n4} subscripts of the input text found in the lexer (confirmed by reading: >= 8)")
     # ---- R-C16.2 ---------------------------------------------------------------
     ts = px.methods("_TokenStream")
     for need in ("reset", "mark", "_fill", "next", "peek"):
